@@ -1,10 +1,13 @@
 (* Suite "report" (C12): the evaluation views of one file at one instant.
      report-run <y> <m> <d> <h> <mi> <aggregate> <fill 0/1> <diff 0/1> <now 0/1> <hex file>
    prints   <status> R <report> T <total> D <today> P <print --with-totals>
+     report-filtered <y> <m> <d> <h> <mi> <aggregate> <fill> <diff> <now> <n> <flag_1> ... <flag_n> <hex file>
+   the same with filter flags (spelled as in Model/SuiteQuery.v: `name` or `name:<hex value>`) on report, total and
+   print --with-totals; prints   <status> R <report> T <total> P <print --with-totals>   or `argerr`
    with every number in minutes and the row keys rebuilt from the row's date:
      day  y-m-d-weekday   week  isoyear-week   month  y-m   quarter  y-q   year  y          *)
 From Klog Require Import Base.Prelude Base.Utf8 Model.Calendar Model.Values Model.Record Model.Lines Model.Parser
-  Model.Eval Model.Period Model.Report Model.Show.
+  Model.Eval Model.Period Model.Tags Model.Query Model.Report Model.Show.
 Open Scope Z_scope.
 
 (* Report.canonicaliseOpts: the first letter, lower-cased; "" is day *)
@@ -101,6 +104,39 @@ Definition report_line (a : agg) (fill with_diff now_flag : bool) (today : cdate
 
 Definition flag (s : bytes) : bool := bytes_eqb s b!"1".
 
+(* klog report / total / print --with-totals with filter flags: FilterArgs.ApplyFilter comes first in all three *)
+Definition filtered_line (a : agg) (fill with_diff now_flag : bool) (today : cdate) (h m : Z) (q : filter_qry)
+    (rs : list record) : bytes :=
+  let rs1 := filter_records q rs in
+  let secs := [ section b!"R" (show_report a) (report_cmd a fill with_diff now_flag today h m rs1);
+                section b!"T" (fun x => let '(t, s, d, n) := x in [dec t; dec s; dec d; dec n]) (total_cmd now_flag today h m rs1);
+                section b!"P" show_with_totals (with_totals rs1) ] in
+  words (show_status (fold_left worst (map fst secs) SOk) :: flat_map snd secs).
+
+(* `name` or `name:hex` (as Model/SuiteQuery.v) *)
+Definition split_flag (tok : bytes) : bytes * bytes :=
+  match split_on 58%N tok [] with
+  | [n] => (n, [])
+  | n :: v :: _ => (n, arg_bytes v)
+  | [] => ([], [])
+  end.
+
+Definition flag_shape_ok (tok : bytes) : bool :=
+  let has_value := existsb (N.eqb 58%N) tok in
+  match index_of (fst (split_flag tok)) bool_flag_names 0%nat with
+  | Some _ => negb has_value
+  | None => has_value
+  end.
+
+Fixpoint take_flags (n : nat) (l : list bytes) : option (list bytes * list bytes) :=
+  match n with
+  | O => Some ([], l)
+  | S k => match l with
+           | [] => None
+           | x :: r => match take_flags k r with Some (a, b) => Some (x :: a, b) | None => None end
+           end
+  end.
+
 Definition suite_report (cmd : bytes) (args : list bytes) : option bytes :=
   if bytes_eqb cmd b!"report-run" then
     match args with
@@ -112,6 +148,34 @@ Definition suite_report (cmd : bytes) (args : list bytes) : option bytes :=
       | Some _, Ok (Failed _) => Some b!"invalid"
       | Some _, _ => Some b!"crash"
       | None, _ => Some b!"badarg"
+      end
+    | _ => None
+    end
+  else if bytes_eqb cmd b!"report-filtered" then
+    match args with
+    | y :: mo :: d :: h :: mi :: ag :: fill :: df :: now :: n :: rest =>
+      match take_flags (Z.to_nat (parse_int n)) rest with
+      | Some (flags, [s]) =>
+        let today := {| c_year := parse_int y; c_month := parse_int mo; c_day := parse_int d |} in
+        Some (
+          if negb (forallb flag_shape_ok flags) then b!"argerr" else
+          match decode_flags no_args (map split_flag flags) with
+          | Err _ => b!"argerr"
+          | Crash _ => b!"crash"
+          | Ok fa =>
+            match agg_of_bytes ag, parse_text (arg_bytes s) with
+            | Some a, Ok (Parsed rs _) =>
+              match apply_filter_args today fa with
+              | Ok q => filtered_line a (flag fill) (flag df) (flag now) today (parse_int h) (parse_int mi) q rs
+              | Err _ => b!"err"
+              | Crash _ => b!"crash"
+              end
+            | Some _, Ok (Failed _) => b!"invalid"
+            | Some _, _ => b!"crash"
+            | None, _ => b!"badarg"
+            end
+          end)
+      | _ => None
       end
     | _ => None
     end
